@@ -88,6 +88,7 @@ def run(ctx):
     d2 = X.depth2_family(ctx)
     cfg2 = [(2, BN128, E.D(2)), (3, BN128, E.D(2))] if ctx.thorough else [(3, BN128, E.D(2))]
     extras += e1.sweep(ctx, d2, cfg2, "pv.checks.c05.oracle", modes=MODES)
+    e1.wide_sweep(ctx, "pv.checks.c05.oracle", MODES, include_assert=False)
     X.structured_sweep(ctx, "pv.checks.c05.oracle", MODES, fxp=False)
     X.long_run(ctx, "wrong")
     e1.bfs_sweep(ctx, {"wrong-value", "wrong-value-congruent-mod-p", "same-state-different-future"}, ctx.thorough)
